@@ -96,6 +96,12 @@ func (i *interpreter) globalAddr(g *ssa.Global) *value {
 	if r, ok := i.globals[g]; ok {
 		return r
 	}
+	if mk, ok := specialGlobals[g.String()]; ok {
+		cell := mk(i)
+		p := &cell
+		i.globals[g] = p
+		return p
+	}
 	if g.Pkg != nil {
 		path := g.Pkg.Pkg.Path()
 		if (i.env.opaque(path) || i.env.noInit(path)) && i.env.hasInitializer(g) && !i.env.zeroOK(g) {
@@ -592,12 +598,39 @@ func call(i *interpreter, caller *frame, callpos token.Pos, fn value, args []val
 	case *ssa.Builtin:
 		return i.ps.callBuiltin(caller, callpos, fn, args)
 	case opaqueCall:
-		return zero(fn.sig.Results())
+		return opaqueZero(fn.sig.Results())
 	}
 	panic(fmt.Sprintf("cannot call %T", fn))
 }
 
 type opaqueCall struct{ sig *types.Signature }
+
+// opaqueZero is the result of a function of an opaque (logging/metrics)
+// package: zero values, except that pointers to structs are fresh zeroed
+// objects so that promoted-method calls on them (log.Errorf) do not fault.
+func opaqueZero(t types.Type) value {
+	switch t := t.(type) {
+	case *types.Tuple:
+		if t.Len() == 0 {
+			return nil
+		}
+		if t.Len() == 1 {
+			return opaqueZero(t.At(0).Type())
+		}
+		r := make(tuple, t.Len())
+		for i := range r {
+			r[i] = opaqueZero(t.At(i).Type())
+		}
+		return r
+	}
+	if p, ok := t.Underlying().(*types.Pointer); ok {
+		if _, isStruct := p.Elem().Underlying().(*types.Struct); isStruct {
+			v := zero(p.Elem())
+			return &v
+		}
+	}
+	return zero(t)
+}
 
 func funcKey(fn *ssa.Function) string {
 	if o := fn.Origin(); o != nil {
@@ -632,7 +665,7 @@ func callSSA(i *interpreter, caller *frame, callpos token.Pos, fn *ssa.Function,
 			path := pkg.Pkg.Path()
 			if i.env.opaque(path) {
 				ps.stubsSeen["opaque:"+path] = true
-				return zero(fn.Signature.Results())
+				return opaqueZero(fn.Signature.Results())
 			}
 			if fn.Name() == "init" && fn.Synthetic != "" && fn.Signature.Recv() == nil {
 				// package initialiser: lazily, and only where allowed
@@ -814,4 +847,34 @@ func doRecover(caller *frame) value {
 
 func debugf(format string, args ...interface{}) {
 	fmt.Fprintf(os.Stderr, format, args...)
+}
+
+
+// Globals of never-initialised packages that are given a value on first use.
+var specialGlobals map[string]func(i *interpreter) value
+
+func init() {
+	specialGlobals = map[string]func(i *interpreter) value{
+	"os.ErrInvalid":          func(i *interpreter) value { return i.pkgGlobal("io/fs", "ErrInvalid") },
+	"os.ErrPermission":       func(i *interpreter) value { return i.pkgGlobal("io/fs", "ErrPermission") },
+	"os.ErrExist":            func(i *interpreter) value { return i.pkgGlobal("io/fs", "ErrExist") },
+	"os.ErrNotExist":         func(i *interpreter) value { return i.pkgGlobal("io/fs", "ErrNotExist") },
+	"os.ErrClosed":           func(i *interpreter) value { return i.pkgGlobal("io/fs", "ErrClosed") },
+	"os.ErrNoDeadline":       func(i *interpreter) value { return i.makeError("file type does not support deadline", nil) },
+	"os.ErrDeadlineExceeded": func(i *interpreter) value { return i.makeError("i/o timeout", nil) },
+	"os.ErrProcessDone":      func(i *interpreter) value { return i.makeError("os: process already finished", nil) },
+	"os.Args":                func(i *interpreter) value { return []value{"verif"} },
+	}
+}
+
+func (i *interpreter) pkgGlobal(pkg, name string) value {
+	p := i.prog.ImportedPackage(pkg)
+	if p == nil {
+		panic(engineError("package " + pkg + " not loaded"))
+	}
+	g, ok := p.Members[name].(*ssa.Global)
+	if !ok {
+		panic(engineError("no global " + pkg + "." + name))
+	}
+	return *i.globalAddr(g)
 }
